@@ -455,15 +455,19 @@ def reqColsWith (sch : Scheme) (par : Bool) (D : Disc) (x : Vec) (s : Step) (fna
   | .cs, false => csGrad (reqFunG D.fc x fic foc) xv s r.xidx
   | .cs, true => csGradPar (reqFunG D.fc x fic foc) xv s r.xidx
 
-/-- `flat_jac_complete` as rows, then one block per (output name, input name) of the request, outputs first. -/
-def splitBlocks (D : Disc) (r : Request) (cols : List Vec) : List (List Vec) :=
+/-- `flat_jac_complete` as rows, then the block of the `a`-th requested output name and the `b`-th requested
+    input name (`split_array_to_dict_of_arrays` with the sizes of the requested names, in their order). -/
+def reqBlock (D : Disc) (r : Request) (cols : List Vec) (a b : Nat) : List Vec :=
   let m := (compsOf D.outSizes r.outs).length
   let n := (compsOf D.inSizes r.ins).length
   let rows := rowsOf m (placeCols m n r.xidx cols)
   let rsz := r.outs.map (fun a => D.outSizes.getD a 0)
   let csz := r.ins.map (fun b => D.inSizes.getD b 0)
-  (List.range rsz.length).flatMap (fun a => (List.range csz.length).map (fun b =>
-    block rows ((rsz.take a).sum) (rsz.getD a 0) ((csz.take b).sum) (csz.getD b 0)))
+  block rows ((rsz.take a).sum) (rsz.getD a 0) ((csz.take b).sum) (csz.getD b 0)
+
+/-- One block per (output name, input name) of the request, outputs first. -/
+def splitBlocks (D : Disc) (r : Request) (cols : List Vec) : List (List Vec) :=
+  (List.range r.outs.length).flatMap (fun a => (List.range r.ins.length).map (fun b => reqBlock D r cols a b))
 
 /-- A fresh object serving the request: the function is built from the names of the request. -/
 def reqCols (sch : Scheme) (par : Bool) (D : Disc) (x : Vec) (s : Step) (r : Request) : List Vec :=
